@@ -5,10 +5,13 @@
 //
 //	sheensdrv config <config.ndjson>
 //	sheensdrv run <n> <seed> <out.ndjson>
+//	sheensdrv msimple-config <msimple_config.ndjson>        (spec/MC_Msimple.tla)
+//	sheensdrv msimple-run <msimple binary> <n> <seed> <out.ndjson>   (spec/Trace_Msimple.tla judges)
 package main
 
 import (
 	"bufio"
+	"bytes"
 	"context"
 	"encoding/json"
 	"fmt"
@@ -16,8 +19,12 @@ import (
 	"log"
 	"math/rand"
 	"os"
+	"os/exec"
+	"path/filepath"
 	"sort"
 	"strconv"
+	"strings"
+	"time"
 
 	"verifharness/enc"
 	"verifharness/mach"
@@ -26,6 +33,7 @@ import (
 	"github.com/Comcast/sheens/crew"
 	"github.com/Comcast/sheens/match"
 	"github.com/Comcast/sheens/sio"
+	jyaml "github.com/jsccast/yaml"
 )
 
 type O = enc.O
@@ -159,9 +167,155 @@ func canonAll(xs []interface{}) []interface{} {
 	return out
 }
 
+// ---------------------------------------------------------------- cmd/msimple (spec/MsimpleOps.tla)
+
+// multi: forwards what it is given under "relay", forwards both halves of a "pair" (a, then b), remembers the last value it
+// is "set" to and announces every change
+func multi() *mach.ASpec {
+	return &mach.ASpec{Nodes: map[string]*mach.ANode{
+		"start": {BType: "message", Branches: []mach.ABranch{
+			{HasPat: true, Pat: pat("relay", "?x"), Target: "fwd"},
+			{HasPat: true, Pat: pat("pair", pat("a", "?a", "b", "?b")), Target: "both"},
+			{HasPat: true, Pat: pat("set", "?v"), Target: "store"}}},
+		"fwd":   {Act: []mach.Op{{Name: "emitb", K: "?x"}, {Name: "del", K: "?x"}}, BType: "bindings", Branches: []mach.ABranch{{Target: "start"}}},
+		"both":  {Act: []mach.Op{{Name: "emitb", K: "?a"}, {Name: "emitb", K: "?b"}, {Name: "del", K: "?a"}, {Name: "del", K: "?b"}}, BType: "bindings", Branches: []mach.ABranch{{Target: "start"}}},
+		"store": {Act: []mach.Op{{Name: "setfrom", K: "val", K2: "?v"}, {Name: "del", K: "?v"}, {Name: "emit", V: pat("note", "latched")}}, BType: "bindings", Branches: []mach.ABranch{{Target: "start"}}},
+	}}
+}
+
+func genNested(rng *rand.Rand, depth int) interface{} {
+	if depth == 0 || rng.Intn(4) == 0 {
+		switch rng.Intn(4) {
+		case 0:
+			return pat("set", float64(rng.Intn(3)))
+		case 1:
+			return pat("set", "x")
+		case 2:
+			return pat("other", true)
+		default:
+			return pat("relay", pat("leaf", float64(rng.Intn(2))))
+		}
+	}
+	if rng.Intn(2) == 0 {
+		return pat("relay", genNested(rng, depth-1))
+	}
+	return pat("pair", pat("a", genNested(rng, depth-1), "b", genNested(rng, depth-1)))
+}
+
+func msimpleInputs() []interface{} {
+	set1, set2 := pat("set", float64(1)), pat("set", "x")
+	return []interface{}{set1, set2, pat("other", true), pat("relay", set1), pat("relay", pat("relay", set2)),
+		pat("pair", pat("a", set1, "b", set2)), pat("pair", pat("a", pat("relay", set2), "b", set1)),
+		pat("pair", pat("a", pat("pair", pat("a", set1, "b", pat("leaf", float64(0)))), "b", pat("relay", set2)))}
+}
+
+func msimpleConfig() O {
+	return O{"machine": O{"spec": mach.EncSpec(multi()), "st": T{"st", "start", O{}}}, "inputs": mach.EncMsgs(msimpleInputs())}
+}
+
+// msimpleRun: one run of the cmd/msimple binary (built from the tree under test) on the multi spec
+func msimpleRun(id int, rng *rand.Rand, bin, specFile string) O {
+	recycle := rng.Intn(5) > 0
+	var ins []interface{}
+	for i, n := 0, 1+rng.Intn(4); i < n; i++ {
+		if rng.Intn(3) == 0 {
+			fixed := msimpleInputs()
+			ins = append(ins, fixed[rng.Intn(len(fixed))])
+		} else {
+			ins = append(ins, genNested(rng, 3))
+		}
+	}
+	var input bytes.Buffer
+	for _, m := range ins {
+		js, _ := json.Marshal(m)
+		input.Write(js)
+		input.WriteByte('\n')
+	}
+	ctx, cancel := context.WithTimeout(context.Background(), 60*time.Second)
+	defer cancel()
+	args := []string{"-s", specFile, "-n", "start", "-b", "{}", "-d", "-e"}
+	if !recycle {
+		args = append(args, "-r=false")
+	}
+	cmd := exec.CommandContext(ctx, bin, args...)
+	cmd.Stdin = &input
+	var stdout, stderr bytes.Buffer
+	cmd.Stdout, cmd.Stderr = &stdout, &stderr
+	cfg := msimpleConfig()
+	res := O{"id": id, "kind": "msimple", "machine": cfg["machine"], "recycle": recycle, "outcome": "returned", "steps": T{}, "raw": enc.Canon(O{"inputs": ins, "recycle": recycle})}
+	if err := cmd.Run(); err != nil {
+		res["outcome"] = "failed: " + err.Error()
+		return res
+	}
+	// "in: <msg>" opens the record of an input line (-e); "# next <state>" is the state after a processed message (-d: the
+	// last one of the record is the state after the input and all it caused); other lines that are not diagnostics are the
+	// emitted messages, in the order the host printed them
+	steps := T{}
+	var cur O
+	for _, line := range strings.Split(stdout.String(), "\n") {
+		switch {
+		case strings.HasPrefix(line, "in: "):
+			if cur != nil {
+				steps = append(steps, cur)
+			}
+			var x interface{}
+			check(json.Unmarshal([]byte(strings.TrimPrefix(line, "in: ")), &x))
+			cur = O{"msg": enc.V(x), "out": T{}, "state": T{"st", "start", O{}}}
+			if len(steps) > 0 {
+				cur["state"] = steps[len(steps)-1].(O)["state"]
+			}
+		case strings.HasPrefix(line, "# next "):
+			var st core.State
+			check(json.Unmarshal([]byte(strings.TrimPrefix(line, "# next ")), &st))
+			cur["state"] = mach.EncState(&st)
+		case strings.HasPrefix(line, "#   error"):
+			res["outcome"] = "walk-error"
+		case line == "" || strings.HasPrefix(line, "#") || strings.HasPrefix(line, "warning:"):
+		default:
+			var x interface{}
+			check(json.Unmarshal([]byte(line), &x))
+			cur["out"] = append(cur["out"].(T), enc.V(x))
+		}
+	}
+	if cur != nil {
+		steps = append(steps, cur)
+	}
+	res["steps"] = steps
+	return res
+}
+
 func main() {
 	log.SetOutput(io.Discard)
 	switch os.Args[1] {
+	case "msimple-config":
+		f, err := os.Create(os.Args[2])
+		check(err)
+		e := json.NewEncoder(f)
+		e.SetEscapeHTML(false)
+		check(e.Encode(msimpleConfig()))
+		f.Close()
+	case "msimple-run":
+		bin := os.Args[2]
+		n, _ := strconv.Atoi(os.Args[3])
+		seed, _ := strconv.Atoi(os.Args[4])
+		rng := rand.New(rand.NewSource(int64(seed)))
+		dir, err := os.MkdirTemp("", "verif-msimple")
+		check(err)
+		defer os.RemoveAll(dir)
+		ys, err := jyaml.Marshal(mach.Build(multi()))
+		check(err)
+		specFile := filepath.Join(dir, "multi.yaml")
+		check(os.WriteFile(specFile, ys, 0644))
+		f, err := os.Create(os.Args[5])
+		check(err)
+		w := bufio.NewWriterSize(f, 1<<20)
+		e := json.NewEncoder(w)
+		e.SetEscapeHTML(false)
+		for id := 1; id <= n; id++ {
+			check(e.Encode(msimpleRun(id, rng, bin, specFile)))
+		}
+		w.Flush()
+		f.Close()
 	case "config":
 		f, err := os.Create(os.Args[2])
 		check(err)
